@@ -9,6 +9,7 @@ from ..lin import Lin
 from ..trace import Tracer, trace_of, suffix_parser_contract, callee_key
 from ..vra.values import *
 from ..vra.interp import Unsupported
+from ..vra.state import Infeasible
 from ..vra.stdsum import split_enum
 from ..vra.types import ty_str, ty_args
 
@@ -175,16 +176,75 @@ def ret_kind(F, callee, dest_ty):
     return None
 
 
+_HELPER_SUFFIX = {}
+
+
+def helper_obeys_suffix(A, F, d):
+    """A byte-level helper with a parser-like signature (take_n, ...) may be replaced by the suffix contract only if its own body
+    satisfies it: every Ok((rest, _)) it returns has `rest` a suffix of its first argument.  A helper that does not (say one that
+    returns (head, tail)) is simply analysed inline; nothing relies on a contract for it."""
+    key = (id(F), d)
+    if key in _HELPER_SUFFIX:
+        return _HELPER_SUFFIX[key]
+    _HELPER_SUFFIX[key] = True        # (recursion guard)
+    ip = A.ip
+    b = F.bodies.get(d)
+    ok = True
+    if b is not None:
+        old_o, old_s = ip.opaque_fn, ip.summarizable
+        ip.opaque_fn, ip.summarizable = None, None
+        mark = len(ip.log)
+        try:
+            env = {}
+            for g in b.get("generics") or []:
+                if isinstance(g, str) and g.isupper() and len(g) <= 2 and "N" == g:
+                    env[g] = 4
+            for (s2, rv, args) in A.run_fn(b, env=env or None):
+                if not (isinstance(rv, VEnum) and rv.defn == "std::result::Result" and 0 in rv.pay):
+                    continue
+                try:
+                    s3 = s2.copy()
+                    s3.assume_eq0(rv.disc)
+                except Infeasible:
+                    continue
+                p_ = rv.pay[0][0]
+                inp = args[0] if args else None
+                if not (isinstance(p_, VAgg) and len(p_.elems) == 2 and isinstance(p_.elems[0], VSlice) and isinstance(inp, VSlice)):
+                    ok = False
+                    break
+                rest = p_.elems[0]
+                if not (rest.root == inp.root and rest.steps == inp.steps and s3.prove_ge0(rest.start - inp.start)
+                        and s3.prove_eq0(rest.start + rest.n - inp.start - inp.n)):
+                    ok = False
+                    break
+        except Exception:
+            ok = True     # cannot tell: keep the contract (R-C04-SUFFIX re-checks it on the summaries and reports a failure)
+        finally:
+            del ip.log[mark:]
+            ip.opaque_fn, ip.summarizable = old_o, old_s
+    _HELPER_SUFFIX[key] = ok
+    return ok
+
+
 class Extractor:
     def __init__(self, A, F):
         self.A, self.F, self.ip = A, F, A.ip
         self.real_checks = False      # True: check_tlf bodies are evaluated for real instead of yielding an unknown boolean
 
+    def unit(self, callee):
+        """is_parse_unit, minus byte-level helpers whose body does not satisfy the suffix contract (those are inlined)"""
+        if not is_parse_unit(self.F, callee):
+            return False
+        if is_grammar_parser(self.F, callee):
+            return True
+        r = callee.get("resolved") or callee
+        return helper_obeys_suffix(self.A, self.F, r["def"])
+
     def opaque(self, self_def):
         F = self.F
 
         def f(callee):
-            if not is_parser_fn(F, callee) or not is_parse_unit(F, callee):
+            if not is_parser_fn(F, callee) or not self.unit(callee):
                 return False
             r = callee.get("resolved") or callee
             if r["def"] == self_def:
@@ -223,7 +283,7 @@ class Extractor:
         ip.summarizable = None
         out = []
         try:
-            with Tracer(self.A, select=lambda key, callee: is_parser_fn(self.F, callee) and is_parse_unit(self.F, callee)):
+            with Tracer(self.A, select=lambda key, callee: is_parser_fn(self.F, callee) and self.unit(callee)):
                 st = st or ip.new_state()
                 if args is None:
                     args = ip.fresh_args(body, env, st)
